@@ -222,6 +222,9 @@ def get_ipv6_addr_by_EUI64(prefix, mac):
         raise ValueError(msg)
     try:
         eui64 = int(netaddr.EUI(mac).eui64())
+        _address, slash, length = prefix.partition('/')
+        if slash and not _is_plain_prefix(length):
+            raise ValueError('malformed prefix length')
         prefix = netaddr.IPNetwork(prefix)
         if prefix.version != 6:
             # An IPv4 network (e.g. '10.0.0.0/8') is not caught by the
